@@ -394,6 +394,7 @@ fn run_crash_in(case: &C04Case, at: i64, it: &mut Interp, log: &std::path::Path)
             l[l.len().saturating_sub(8)..].join(" | ")
         })
         .unwrap_or_default();
+    it.content_sweep = !case.crash.power;
     it.observe_all("after crash").map_err(|mut f| {
         f.msg = format!(
             "after crash at event {at} ({event_kind}, {}{}) [acked {acked} ops; last events: {log_tail}]: {}",
